@@ -2,7 +2,8 @@ PROPS["C19"] = dict(
     pkg="p_errors", hooks=[], level="exploration", design="DESIGN.md §4 C19",
     technique="exhaustive cross-product of class x other class x wrap-text list (depth 0..4) x embedding level x object (Go structs and generated protobuf messages) x gRPC "
               "code x message, exhaustive lists of level forms (several %w, errors.Join with non-class side errors, inner GRPCWrap), systematic message sizes around powers of two up to 64 KiB, batches of chains built before any "
-              "is checked + rapid message texts, objects, sizes and batches; relational oracle",
+              "is checked + rapid message texts, objects, sizes and batches; relational oracle; concurrent hammer (goroutines behind a spin barrier work on chains of different classes, every result compared with the "
+              "result of the same call made sequentially before)",
     rule="chain case = (class with a gRPC code, list of 0..4 (thorough: exhaustive 0..5, rapid 0..6) fmt.Errorf(\"%s%w%s\") levels with verbatim pre/post texts, optional "
          "errors.EmbedObject at one level 0..depth, object); checked: Is(GRPCWrap(e), class), not Is(GRPCWrap(e), k) for each of "
          "the 11 other distinct class values (incl. ErrClosed, ErrCommunication), GRPCWrap(GRPCWrap(e)) == GRPCWrap(e) with the "
@@ -80,9 +81,22 @@ PROPS["C19"] = dict(
          "(one rapid chain in six draws two thirds of its texts from such pieces, so that raw bytes in the wrapping meet U+FFFD in the object's JSON text; exhaustive: 4 raw styles, 2 raw objects in the section above, 2 raw code messages). "
          "Invalid UTF-8 had been excluded because encoding/json would not keep such a case byte-exact and because json.Marshal writes U+FFFD for invalid bytes of the OBJECT's strings (two map keys may even coincide), so the Go value embedded is not what any decoder can return: "
          "for an object with invalid bytes the reference of all stages is therefore what the library itself extracts from the result of EmbedObject (same library path before and after the wrapping and GRPCWrap); objects whose strings are valid - U+FFFD included - keep the "
-         "embedded value as the reference, whatever the wrap texts hold. Verified first that the unchanged library (in process: status.Error keeps the message bytes) behaves consistently on all of these. What a real gRPC transport does to a status message that is not UTF-8 is not part of the check. non-trivial = chain with >= 1 wrap level or an embedded object, or a batch with >= 2 embedded objects, or a non-OK code; distinct = FNV hash of "
+         "embedded value as the reference, whatever the wrap texts hold. Verified first that the unchanged library (in process: status.Error keeps the message bytes) behaves consistently on all of these. What a real gRPC transport does to a status message that is not UTF-8 is not part of the check. "
+         "CONCURRENT USE (conc.go, unit concurrent; thorough also unit concurrent_race under the race detector): hammer case = 2..12 chains around different classes (the ten coded classes in a drawn order) + goroutine count G (2..16, clamped to GOMAXPROCS) + rounds. "
+         "Phase 1: every chain is checked sequentially like a chain of a batch (all relations above). Phase 2, still sequentially: the outcome of every step of every chain is computed once - GRPCStatusCode(e), code and text of GRPCWrap(e), "
+         "the set of classes k with Is(e, k) and with Is(GRPCWrap(e), k) over all 12 classes, FromGRPCError / FromGRPCErrorMsg of the wrapped error, ExtractObject (ok + JSON text into a json.RawMessage) from e and from GRPCWrap(e). "
+         "Phase 3: G goroutines start together behind a spin barrier and make `rounds` visits each (quick 1000..3000, thorough 4000..12000; race unit <= 500); goroutine g visits chain (g*n/G + round) mod n, so that at every instant the goroutines work on "
+         "DIFFERENT classes, and performs the steps of that chain in an order rotated by goroutine and round: on the shared prebuilt chain, on the shared GRPCWrap result made before the goroutines started (FromGRPCError, Is, GRPCWrap(g) == g, code), "
+         "on a GRPCWrap result of its own and - chains of <= 12 links, every fourth visit - on a chain it assembles itself (EmbedObject included), i.e. wrapping of fresh errors is interleaved with reading already wrapped ones. "
+         "Every result must equal the one of phase 2 (sig errors:concurrent-result-differs-from-sequential; the loop has no channel or mutex operation and formats nothing, one atomic stop flag is read every 32 visits). "
+         "A third of the cases are lean (plain %w chains of depth 1..3, short texts, no object: the tightest loop), the others take chains from the rapid chain generator (all level forms, objects of all kinds, runs cut to <= 32 links; three bare classes in four get one level, "
+         "a bare class being found by a map lookup). About 45 library calls per visit, some 5*10^4 visits in the quick tier. A replay re-runs the three phases on the chain set. Classes hammer_*. "
+         "non-trivial = chain with >= 1 wrap level or an embedded object, or a batch with >= 2 embedded objects, or a non-OK code, or a hammer case in which >= 2 goroutines ran over chains of >= 2 different classes reachable through Unwrap only; distinct = FNV hash of "
          "the JSON form of the case",
-    assumptions=["the classes that have a gRPC code are the ten named in the errorsToCode table at the pinned commit (fixed list, "
+    assumptions=["Is, GRPCWrap, GRPCStatusCode, FromGRPCError, FromGRPCErrorMsg, EmbedObject and ExtractObject are functions of their arguments and error values are immutable, so the relations of the statement hold for every call "
+                 "whatever other goroutines call at the same time (a gRPC server wraps errors in all its handler goroutines): a result obtained concurrently must equal the result of the same call made alone; "
+                 "the hammer is a probabilistic search (real parallelism, no schedule control), its silence is weaker evidence than that of the sequential units",
+                 "the classes that have a gRPC code are the ten named in the errorsToCode table at the pinned commit (fixed list, "
                  "not derived from the code under test)",
                  "'equal object' is decided on the JSON form of the extracted vs embedded object (nil and empty slices coincide)",
                  "nothing is asserted about which code a class gets, only the relations of the C19 statement; in particular the "
@@ -107,6 +121,9 @@ PROPS["C19"] = dict(
         dict(name="trees", run="^TestC19ExhaustiveTrees$", shards=(8, 16), timeout=(200, 1200)),
         dict(name="rapid", run="^TestC19Rapid$", checks=(5000, 100000), shards=(2, 16), timeout=(200, 1200)),
         dict(name="deep", run="^TestC19Deep$", shards=(4, 16), timeout=(200, 1200)),
+        dict(name="concurrent", run="^TestC19Concurrent$", checks=(6, 40), shards=(1, 2), timeout=(200, 1200), shrinktime="5s", serial=True),
+        dict(name="concurrent_race", run="^TestC19Concurrent$", checks=(0, 10), shards=(1, 2), timeout=(200, 1200), shrinktime="5s",
+             race=(False, True), enabled=(False, True), env={"VERIF_HAMMER_MAX_ROUNDS": "500"}),
     ],
 )
 
@@ -120,5 +137,6 @@ LEVEL_TEXT["C19"] = (
     "and layered chains with GRPCWrap at inner levels are enumerated to depth 3 as well; "
     "chains of up to 5000 links (16385 in the thorough tier) are run at depths around every power of two and ten; "
     "generated protobuf messages (errdetails, rpc status, the kvs record, well-known types) are embedded and extracted into fresh messages of the same type; "
+    "goroutines hammer chains of different classes concurrently and every result is compared with the sequential one (thorough: also under the race detector); "
     "not a proof for other wrapping forms (custom error types, several classes in one tree) or still deeper chains."
 )
